@@ -129,6 +129,7 @@ class Engine:
         self.viol = []
         self.harness_err = []
         self.fail_idx_now = []
+        msel.SUPERSEDED = scenario.get("superseded_returns", "kept")
         self.probes = {}
         self.order = []  # ids of active probes in activation order
         self.obs = []
@@ -1106,7 +1107,11 @@ class Engine:
         # the untouched twin (which knows no probes) is no reference for this operation
         exact = self.exact_mode()
         optional = set(self.fail_idx_now)
-        ref_skip = raised_now or bool(optional) or getattr(self, "ref_diverged", False)
+        if msel.SUPERSEDED == "kept":
+            # outside the C06 lens: whether a superseded return value is reported is not judged
+            optional |= {ev["i"] for ev in self.sim.tr.events[ob["lo"]:ob["hi"]] if ev.get("superseded")}
+            optional.discard(-1)
+        ref_skip = raised_now or bool(self.fail_idx_now) or getattr(self, "ref_diverged", False)
         if exact:
             raised_now = False
         # C16.no_absent is checked in every run of every lens
